@@ -88,11 +88,12 @@ COQTY = {
     "kind": "kind", "cls": "cls", "bool": "bool", "dtype": "dtype", "odtype": "option dtype",
     "pyv": "pyv", "vinfo": "vinfo", "lpyv": "list pyv", "Z": "Z", "slice": "pyslice",
     "name": "pyname", "tag": "option string", "string": "string",
+    "elem": "X", "lelem": "list X", "vecself": "list X",
 }
 NARROW = {"pyv": "vinfo", "odtype": "dtype"}           # Optional types a `match` can narrow
 OPTIONAL = {"pyv", "odtype", "name", "tag"}
 NONOPTIONAL_OBJ = {"vinfo", "dtype"}                   # `x is None` is statically False on these
-ELEM = {"lpyv": "pyv"}
+ELEM = {"lpyv": "pyv", "lelem": "elem"}
 
 CLASSNAMES = {
     "bool": "KBool", "int": "KInt", "float": "KFloat", "complex": "KComplex", "str": "KStr",
@@ -110,9 +111,13 @@ def coqty(t) -> str:
 
 
 class Kernel:
-    def __init__(self, py, coq, params, ret, cls=None, mode="value", prop=False, wrap_kind=False):
+    def __init__(self, py, coq, params, ret, cls=None, mode="value", prop=False, wrap_kind=False,
+                 static=False, elem_forms=False, ctxp=("", "")):
         self.py, self.coq, self.params, self.ret = py, coq, params, ret
         self.cls, self.mode, self.prop, self.wrap_kind = cls, mode, prop, wrap_kind
+        self.static = static            # @staticmethod: no self parameter
+        self.elem_forms = elem_forms    # _hash_element: tests on the element are observations (GenPrelude.elinfo)
+        self.ctxp = ctxp                # (binders, arguments) every definition of the file takes first
         self.node = None
 
 
@@ -129,6 +134,28 @@ TYPING_KERNELS = [
 ]
 SLICE_KERNELS = [Kernel("slice_length", "slice_length", ["slice", "Z"], "Z")]
 NAMES_KERNELS = [Kernel("_resolve_binary_name", "resolve_binary_name", ["name", "name"], ("name", "tag"))]
+# vector.py fingerprint kernels: generic in the element type X; what the code can observe of an element and
+# Python's hash() are parameters (see GenPrelude.elinfo)
+FP_CTXP = ("(X : Type) (el_obs : X -> elinfo) (el_hash el_nested_fp el_untranslated : X -> Z)",
+           "X el_obs el_hash el_nested_fp el_untranslated")
+FP_CONSTS = [("_FP_P", "fp_P"), ("_FP_B", "fp_B")]
+FP_KERNELS = [
+    Kernel("_hash_element", "hash_element", ["elem"], "Z", cls="Vector", static=True, elem_forms=True, ctxp=FP_CTXP),
+    Kernel("_compute_fingerprint_full", "compute_fingerprint_full", ["vecself"], "Z", cls="Vector", ctxp=FP_CTXP),
+]
+# the exact source forms of _hash_element's observations of its argument ({x} = the parameter)
+ELEM_TESTS = {
+    "{x} is None": "el_none",
+    "hasattr({x}, 'fingerprint') and callable(getattr({x}, 'fingerprint'))": "el_hasfp",
+    "isinstance({x}, float)": "el_float",
+    "math.isnan({x})": "el_nan",
+    "isinstance({x}, set)": "el_set",
+    "isinstance({x}, (list, tuple))": "el_seq",
+    "_is_hashable({x})": "el_hashable",
+}
+ELEM_VALUES = {"hash({x})": "el_hash", "int({x}.fingerprint())": "el_nested_fp"}
+ELEM_UNTRANSLATED_TESTS = {"el_set": "set elements", "el_seq": "list/tuple elements (recursive hash)"}
+ELEM_UNTRANSLATED_VALUES = {"hash(repr({x}))": "unhashable elements: hash(repr(x))"}
 
 
 # --------------------------------------------------------------------------- the translator
@@ -186,6 +213,19 @@ def disj(parts):
 
 def expr(ctx, env, node, want=None):
     """-> (coq text, type).  `want` only guides constants (None, tuples); callers coerce."""
+    if ctx.kernel.elem_forms and not isinstance(node, (ast.Name, ast.Constant)):
+        src = ast.unparse(node)
+        for v, (cn, ty) in env.items():
+            if ty != "elem":
+                continue
+            for forms, rty in ((ELEM_TESTS, "bool"), (ELEM_VALUES, "Z")):
+                for form, fn in forms.items():
+                    if src == form.format(x=v):
+                        return f"({fn} {cn})" if rty == "Z" else f"({fn} (el_obs {cn}))", rty
+            for form, why in ELEM_UNTRANSLATED_VALUES.items():
+                if src == form.format(x=v):
+                    ctx.note(node, f"NOT TRANSLATED: `{src}` ({why}) is the parameter el_untranslated")
+                    return f"(el_untranslated {cn})", "Z"
     if isinstance(node, ast.Name):
         if not isinstance(node.ctx, ast.Load):
             raise ctx.err(node, "name in store context inside an expression")
@@ -222,7 +262,16 @@ def expr(ctx, env, node, want=None):
     if isinstance(node, ast.Attribute):
         if not isinstance(node.ctx, ast.Load):
             raise ctx.err(node, "attribute store")
+        consts = getattr(ctx, "consts", {})
+        if (isinstance(node.value, ast.Name) and node.value.id == ctx.kernel.cls and node.value.id not in env
+                and node.attr in consts):
+            return consts[node.attr], "Z"                     # Vector._FP_P
         t, ty = expr(ctx, env, node.value)
+        if ty == "vecself":
+            if node.attr in consts:
+                return consts[node.attr], "Z"                 # self._FP_P (class constant, never an instance attribute)
+            if node.attr == "_underlying":
+                return t, "lelem"
         if ty == "dtype":
             if node.attr == "kind":
                 return f"(dkind {t})", "kind"
@@ -260,6 +309,11 @@ def expr(ctx, env, node, want=None):
         ops = {ast.Add: "+", ast.Sub: "-", ast.Mult: "*", ast.FloorDiv: "/", ast.Mod: "mod"}
         if ta == tb == "Z" and type(node.op) in ops:
             return f"({a} {ops[type(node.op)]} {b})%Z", "Z"
+        if ta == tb == "Z" and isinstance(node.op, (ast.LShift, ast.Pow)):
+            r = node.right
+            if not (isinstance(r, ast.Constant) and type(r.value) is int and 0 <= r.value <= 4096):
+                raise ctx.err(node, "`<<` / `**` whose right operand is not a small non-negative int literal")
+            return (f"(Z.shiftl {a} {b})" if isinstance(node.op, ast.LShift) else f"({a} ^ {b})%Z"), "Z"
         raise ctx.err(node, f"binary {type(node.op).__name__} on {ta}, {tb}")
     if isinstance(node, ast.IfExp):
         c, tc = expr(ctx, env, node.test)
@@ -344,6 +398,12 @@ def call(ctx, env, node):
     if isinstance(f, ast.Attribute):
         if node.keywords:
             raise ctx.err(node, f"keyword arguments in call of .{f.attr}")
+        k = ctx.table.get((ctx.kernel.cls, f.attr)) if ctx.kernel.cls else None
+        if k is not None and k.static and k.mode == "value" and (
+                (isinstance(f.value, ast.Name) and f.value.id == ctx.kernel.cls and f.value.id not in env)
+                or (isinstance(f.value, ast.Name) and env.get(f.value.id, ("", ""))[1] == "vecself")):
+            a = typed_args(ctx, env, node, node.args, k.params)          # Vector._hash_element(x) / self._hash_element(x)
+            return f"({k.coq} {k.ctxp[1]} {' '.join(a)})", k.ret
         o, to = expr(ctx, env, f.value)
         if to == "dtype":
             k = ctx.table.get(("DataType", f.attr))
@@ -639,6 +699,18 @@ def block(ctx, env, stmts, ind):
                 env2[n] = (mangle(ctx, s, n), et)
             return f"{p}let {pattern(ctx, s, names)} := {t} in (* L{s.lineno} *)\n" + block(ctx, env2, rest, ind)
         raise ctx.err(s, "assignment target is not a name or a tuple of names")
+    if isinstance(s, ast.If) and ctx.kernel.elem_forms and not s.orelse and terminates(s.body):
+        src = ast.unparse(s.test)
+        for v, (cn, ty) in env.items():
+            for form, fn in ELEM_TESTS.items():
+                if ty == "elem" and fn in ELEM_UNTRANSLATED_TESTS and src == form.format(x=v):
+                    ctx.note(s, f"NOT TRANSLATED: the branch `if {src}:` (lines {s.lineno}-{s.end_lineno}, "
+                                f"{ELEM_UNTRANSLATED_TESTS[fn]}); its value is the parameter el_untranslated")
+                    if ctx.finish is not None:
+                        raise ctx.err(s, "untranslated branch inside a loop body / joined branch")
+                    return (f"{p}if ({fn} (el_obs {cn})) (* L{s.lineno} *)\n{p}then\n{pad(ind + 1)}(el_untranslated {cn}) "
+                            f"(* L{s.lineno}-{s.end_lineno} branch NOT translated: {ELEM_UNTRANSLATED_TESTS[fn]} *)\n"
+                            f"{p}else\n" + block(ctx, env, rest, ind + 1))
     if isinstance(s, ast.If):
         cond = Cond(ctx, env, s.test)
         if cond.kind == "static":
@@ -690,12 +762,15 @@ def block(ctx, env, stmts, ind):
 
 def for_loop(ctx, env, s, rest, ind):
     p = pad(ind)
-    if s.orelse or not isinstance(s.target, ast.Name) or not isinstance(s.iter, ast.Name):
-        raise ctx.err(s, "`for` shape (need `for x in <name>:` without else)")
+    if s.orelse or not isinstance(s.target, ast.Name) or not isinstance(s.iter, (ast.Name, ast.Attribute)):
+        raise ctx.err(s, "`for` shape (need `for x in <name or self attribute>:` without else)")
     if ctx.finish is not None:
         raise ctx.err(s, "nested loop / loop inside a joined branch")
-    if s.iter.id not in env or env[s.iter.id][1] not in ELEM:
-        raise ctx.err(s, f"`for` over {s.iter.id!r}, which is not a list parameter")
+    iter_src = ast.unparse(s.iter)
+    iter_text, iter_ty = expr(ctx, env, s.iter)
+    if iter_ty not in ELEM:
+        raise ctx.err(s, f"`for` over {iter_src!r}, which is not a list parameter")
+    iter_names = {n.id for n in ast.walk(s.iter) if isinstance(n, ast.Name)}
     if has_exit(s.body) or any(isinstance(n, (ast.Break, ast.Continue, ast.For, ast.While)) for b in s.body for n in ast.walk(b)):
         raise ctx.err(s, "loop body with return/raise/break/continue/nested loop")
     x = s.target.id
@@ -708,9 +783,16 @@ def for_loop(ctx, env, s, rest, ind):
     # variable or swapping two initialisations does not change the type of the generated loop body
     carried = [n for n in env if n in body_assigned]
     carried.sort(key=lambda n: coqty(ctx.declared.get(n, env[n][1])), reverse=True)
+    # names first bound inside the body are loop-local temporaries: allowed when nothing after the loop reads them
+    # (a read before the assignment inside the body is an unknown name there, so it fails closed)
     missing = [n for n in body_assigned if n not in env]
-    if missing:
-        raise ctx.err(s, f"variables {missing} assigned in the loop are not initialised before it")
+    after = {n.id for r in rest for n in ast.walk(r) if isinstance(n, ast.Name)}
+    if any(n in after or n in ctx.declared for n in missing):
+        raise ctx.err(s, f"variables {missing} assigned in the loop are not initialised before it but used after it")
+    if any(n in iter_names for n in body_assigned):
+        raise ctx.err(s, "the loop body assigns a name the iterated expression depends on")
+    if not carried:
+        raise ctx.err(s, "loop without loop-carried state")
     if any(isinstance(n, ast.Name) and n.id == x for r in rest for n in ast.walk(r)):
         raise ctx.err(s, "loop variable used after the loop")
     ctypes = []
@@ -719,21 +801,26 @@ def for_loop(ctx, env, s, rest, ind):
         ctx.declared[n] = ty                                   # loop-carried: fixed type from here on
         ctypes.append(ty)
     used = {n.id for b in s.body for n in ast.walk(b) if isinstance(n, ast.Name)}
-    extra = [n for n in env if n in used and n not in carried and n != s.iter.id]
-    if s.iter.id in used:
+    extra = [n for n in env if n in used and n not in carried and not (isinstance(s.iter, ast.Name) and n == s.iter.id)]
+    if isinstance(s.iter, ast.Name) and s.iter.id in used:
         raise ctx.err(s, "the iterated list is used inside the loop body")
+    if any(env[n][1] == "vecself" for n in extra) and any(
+            isinstance(n, ast.Attribute) and n.attr == "_underlying" for b in s.body for n in ast.walk(b)):
+        raise ctx.err(s, "the iterated storage is used inside the loop body")
     ctx.nloops += 1
     lname = f"{ctx.kernel.coq}_loop" + ("" if ctx.nloops == 1 else str(ctx.nloops))
     benv = {n: env[n] for n in extra}
     for n, ty in zip(carried, ctypes):
         benv[n] = (mangle(ctx, s, n), ty)
-    benv[x] = (mangle(ctx, s, x), ELEM[env[s.iter.id][1]])
+    benv[x] = (mangle(ctx, s, x), ELEM[iter_ty])
     ctx.finish = lambda e: tuple_text(ctx, s, e, carried, ctypes) + " (* next loop state *)"
     body = block(ctx, benv, s.body, 1)
     ctx.finish = None
     st_ty = tuple(ctypes) if len(ctypes) > 1 else ctypes[0]
     params = "".join(f" ({env[n][0]} : {coqty(env[n][1])})" for n in extra)
-    head = (f"(* {Path(ctx.file).name}:{s.lineno}-{s.end_lineno} body of `for {x} in {s.iter.id}` of {ctx.kernel.py}; "
+    cp, ca = ctx.kernel.ctxp
+    params = (" " + cp if cp else "") + params
+    head = (f"(* {Path(ctx.file).name}:{s.lineno}-{s.end_lineno} body of `for {x} in {iter_src}` of {ctx.kernel.py}; "
             f"state = ({', '.join(carried)}) *)\n"
             f"Definition {lname}{params} (st : {coqty(st_ty)}) ({mangle(ctx, s, x)} : {coqty(benv[x][1])}) : {coqty(st_ty)} :=\n"
             f"  let {pattern(ctx, s, carried)} := st in\n{body}.\n")
@@ -742,8 +829,8 @@ def for_loop(ctx, env, s, rest, ind):
     env2 = dict(env)
     for n, ty in zip(carried, ctypes):
         env2[n] = (mangle(ctx, s, n), ty)
-    args = "".join(" " + env[n][0] for n in extra)
-    return (f"{p}let {pattern(ctx, s, carried)} := fold_left ({lname}{args}) {env[s.iter.id][0]} {init} in "
+    args = (" " + ca if ca else "") + "".join(" " + env[n][0] for n in extra)
+    return (f"{p}let {pattern(ctx, s, carried)} := fold_left ({lname}{args}) {iter_text} {init} in "
             f"(* L{s.lineno} for *)\n" + block(ctx, env2, rest, ind))
 
 
@@ -782,8 +869,9 @@ def find_function(file, tree, k):
             if isinstance(n, ast.Name) and n.id == k.cls and isinstance(n.ctx, (ast.Store, ast.Del)):
                 raise TranslationError(file, n.lineno, f"class name {k.cls} is re-bound")
     decos = [ast.unparse(d) for d in f.decorator_list]
-    if decos != (["property"] if k.prop else []):
-        raise TranslationError(file, f.lineno, f"{k.py}: decorators {decos} (expected {'@property' if k.prop else 'none'})")
+    want_decos = ["property"] if k.prop else (["staticmethod"] if k.static else [])
+    if decos != want_decos:
+        raise TranslationError(file, f.lineno, f"{k.py}: decorators {decos} (expected {want_decos})")
     a = f.args
     if a.vararg or a.kwarg or a.kwonlyargs or a.posonlyargs or a.defaults or a.kw_defaults:
         raise TranslationError(file, f.lineno, f"{k.py}: parameter list with defaults/*args/**kwargs/keyword-only")
@@ -818,9 +906,10 @@ def check_module(file, tree, need_imports):
             raise TranslationError(file, got[0][1], f"module rebinds the builtin name {nm!r}")
 
 
-def translate_function(file, k, table, notes):
+def translate_function(file, k, table, notes, consts=None):
     f = k.node
     ctx = Ctx(file, k, table, notes)
+    ctx.consts = consts or {}
     env = {}
     for a, ty in zip(f.args.args, k.params):
         if a.arg in CLASSNAMES or a.arg in BUILTIN_FUNCS:
@@ -831,7 +920,8 @@ def translate_function(file, k, table, notes):
         notes.append(f"{Path(file).name}:{f.lineno} {k.py}: ASSUMPTION: translated on its non-None domain "
                      f"({f.args.args[0].arg} : vinfo)")
     body = block(ctx, env, f.body, 1)
-    params = " ".join(f"({env[a.arg][0]} : {coqty(ty)})" for a, ty in zip(f.args.args, k.params))
+    params = " ".join(([k.ctxp[0]] if k.ctxp[0] else []) +
+                      [f"({env[a.arg][0]} : {coqty(ty)})" for a, ty in zip(f.args.args, k.params)])
     qual = (k.cls + "." if k.cls else "") + k.py
     name = k.coq + ("_cls" if k.wrap_kind else "")
     out = "".join(h + "\n" for _, h in ctx.aux)
@@ -849,7 +939,73 @@ def translate_function(file, k, table, notes):
     return out, defs, (f.lineno, f.end_lineno)
 
 
-def translate_file(pyfile: Path, kernels, modname, imports, need_imports=()):
+IS_HASHABLE_SRC = "def _is_hashable(x: Any) -> bool:\n    try:\n        hash(x)\n        return True\n    except Exception:\n        return False"
+
+
+def check_fp_helpers(file, tree):
+    """what the element observations of _hash_element rely on: `math` is the math module, `_is_hashable(x)` is
+    "hash(x) does not raise" (its body must be exactly that), hasattr/callable/getattr/hash/repr/int are builtins"""
+    tops = [n for n in tree.body if isinstance(n, (ast.Import, ast.ImportFrom, ast.FunctionDef, ast.ClassDef, ast.Assign,
+                                                   ast.AnnAssign, ast.AugAssign))]
+    def binders(name):
+        out = []
+        for n in tops:
+            if isinstance(n, (ast.Import, ast.ImportFrom)):
+                out += [n for al in n.names if (al.asname or al.name).split(".")[0] == name]
+            elif isinstance(n, (ast.FunctionDef, ast.ClassDef)):
+                out += [n] if n.name == name else []
+            else:
+                out += [n for t in (n.targets if isinstance(n, ast.Assign) else [n.target])
+                        for x in ast.walk(t) if isinstance(x, ast.Name) and x.id == name]
+        return out
+    m = binders("math")
+    if len(m) != 1 or ast.unparse(m[0]) != "import math":
+        raise TranslationError(file, m[0].lineno if m else 0, "`math` must be bound exactly once, by `import math`")
+    h = binders("_is_hashable")
+    if len(h) != 1 or not isinstance(h[0], ast.FunctionDef) or ast.unparse(h[0]) != IS_HASHABLE_SRC:
+        raise TranslationError(file, h[0].lineno if h else 0,
+                               "_is_hashable must be defined exactly once, as `try: hash(x); return True / except Exception: return False`")
+    for nm in ("hasattr", "callable", "getattr", "hash", "repr", "int", "float", "set"):
+        b = binders(nm)
+        if b:
+            raise TranslationError(file, b[0].lineno, f"module rebinds the builtin name {nm!r}")
+    for n in ast.walk(tree):
+        if isinstance(n, ast.Name) and n.id in ("math", "_is_hashable", "hash") and isinstance(n.ctx, (ast.Store, ast.Del)):
+            raise TranslationError(file, n.lineno, f"{n.id!r} is re-bound")
+
+
+def class_constants(file, tree, cls, consts, notes):
+    """class-level integer constants `NAME = <int expression>` (exactly one binding in the whole module)"""
+    cs = [n for n in tree.body if isinstance(n, ast.ClassDef) and n.name == cls]
+    if len(cs) != 1:
+        raise TranslationError(file, 0, f"class {cls}: found {len(cs)} definitions")
+    out, mapping, lines = [], {}, {}
+    for py, coq in consts:
+        here = [st for st in cs[0].body if isinstance(st, ast.Assign) and len(st.targets) == 1
+                and isinstance(st.targets[0], ast.Name) and st.targets[0].id == py]
+        stores = [n for n in ast.walk(tree)
+                  if (isinstance(n, ast.Name) and n.id == py and isinstance(n.ctx, (ast.Store, ast.Del)))
+                  or (isinstance(n, ast.Attribute) and n.attr == py and isinstance(n.ctx, (ast.Store, ast.Del)))
+                  or (isinstance(n, ast.Call) and isinstance(n.func, ast.Name) and n.func.id in ("setattr", "delattr")
+                      and any(isinstance(a, ast.Constant) and a.value == py for a in n.args))]
+        if len(here) != 1 or len(stores) != 1:
+            raise TranslationError(file, here[0].lineno if here else 0,
+                                   f"{cls}.{py}: expected exactly one class-level assignment and no other binding "
+                                   f"(found {len(here)} / {len(stores)})")
+        k = Kernel(f"{cls}.{py}", coq, [], "Z", cls=cls)
+        k.node = here[0]
+        ctx = Ctx(file, k, {}, notes)
+        t, ty = expr(ctx, {}, here[0].value)
+        if ty != "Z":
+            raise ctx.err(here[0], f"constant of type {ty}")
+        out.append(f"(* {Path(file).name}:{here[0].lineno} {cls}.{py} = {ast.unparse(here[0].value)} *)\n"
+                   f"Definition {coq} : Z := {t}.\n")
+        mapping[py] = coq
+        lines[coq] = [here[0].lineno, here[0].lineno]
+    return "\n".join(out), mapping, lines
+
+
+def translate_file(pyfile: Path, kernels, modname, imports, need_imports=(), consts=(), fp_helpers=False):
     try:
         src = pyfile.read_text()
     except OSError as e:
@@ -859,13 +1015,20 @@ def translate_file(pyfile: Path, kernels, modname, imports, need_imports=()):
     except SyntaxError as e:
         raise TranslationError(pyfile, e.lineno or 0, f"syntax error: {e.msg}")
     check_module(pyfile, tree, need_imports)
+    if fp_helpers:
+        check_fp_helpers(pyfile, tree)
     table = {}
     for k in kernels:
         k.node = find_function(pyfile, tree, k)
         table[(k.cls, k.py)] = k
     notes, parts, defs, lines = [], [], [], {}
+    cmap = {}
+    if consts:
+        text, cmap, clines = class_constants(pyfile, tree, kernels[0].cls, consts, notes)
+        parts.append(text)
+        lines.update(clines)
     for k in kernels:
-        text, ds, span = translate_function(pyfile, k, table, notes)
+        text, ds, span = translate_function(pyfile, k, table, notes, cmap)
         parts.append(text)
         defs += ds
         lines[k.coq] = list(span)
@@ -973,6 +1136,8 @@ IMPORTS_TYPING = ("From Coq Require Import List Bool Arith.\n"
                   "From Serif Require Import Base.PyVal Base.GenPrelude.\nImport ListNotations.\n")
 IMPORTS_SLICE = ("From Coq Require Import List Bool ZArith.\n"
                  "From Serif Require Import Base.PyVal Base.GenPrelude.\nLocal Open Scope Z_scope.\n")
+IMPORTS_FP = ("From Coq Require Import List Bool ZArith.\n"
+              "From Serif Require Import Base.PyVal Base.GenPrelude.\nLocal Open Scope Z_scope.\n")
 IMPORTS_NAMES = ("From Coq Require Import List Bool String.\n"
                  "From Serif Require Import Base.PyVal Base.GenPrelude.\n")
 
@@ -984,7 +1149,8 @@ LET_ID2 = re.compile(r"^( *)let (py_\w+) :=\n((?:.*\n)*?)\1in\n *\2$", re.M)    
 
 
 def fresh(kernels):
-    return [Kernel(k.py, k.coq, list(k.params), k.ret, k.cls, k.mode, k.prop, k.wrap_kind) for k in kernels]
+    return [Kernel(k.py, k.coq, list(k.params), k.ret, k.cls, k.mode, k.prop, k.wrap_kind, k.static, k.elem_forms, k.ctxp)
+            for k in kernels]
 
 
 def translate(repo_src: Path, outdir: Path) -> dict:
@@ -996,10 +1162,11 @@ def translate(repo_src: Path, outdir: Path) -> dict:
         ("GenTyping", repo_src / "typing.py", fresh(TYPING_KERNELS), IMPORTS_TYPING, ("date", "datetime")),
         ("GenSlice", repo_src / "typeutils.py", fresh(SLICE_KERNELS), IMPORTS_SLICE, ()),
         ("GenNames", repo_src / "table.py", fresh(NAMES_KERNELS), IMPORTS_NAMES, ()),
+        ("GenFingerprint", repo_src / "vector.py", fresh(FP_KERNELS), IMPORTS_FP, (), FP_CONSTS, True),
     ]
     info = {"files": {}, "functions": {}, "notes": []}
-    for mod, py, kernels, imports, need in jobs:
-        text, meta = translate_file(py, kernels, mod, imports, need)
+    for mod, py, kernels, imports, need, *more in jobs:
+        text, meta = translate_file(py, kernels, mod, imports, need, *more)
         (outdir / f"{mod}.v").write_text(text)
         info["files"][f"{mod}.v"] = hashlib.sha1(text.encode()).hexdigest()
         info["functions"][mod] = meta["lines"]
